@@ -206,7 +206,13 @@ def w_programs(ctx, rng, i):
             form = str(rng.choice([f for f in FORMS if op == "add" or not f.startswith("nd")]))
             ob = rand_bits(rng, int(rng.integers(1, 9)))
             o = render(ob, form)
-            if op == "add":
+            if op == "add" and rng.integers(3) == 0:
+                # augmented concatenation: the object bound to the other name is an operand and must stay as it was
+                alias, before = x, x.data.copy()
+                x += o
+                model = model + ob
+                ctx.check("bs.iadd_operand", x is not alias and np.array_equal(alias.data, before), "x += y modified the object that was the left operand (another name bound to it sees the change)")
+            elif op == "add":
                 x, model = x + o, model + ob
             else:
                 x, model = o + x, ob + model
